@@ -4,6 +4,17 @@ import itertools
 import common
 from common import Result, w_text, parse_kv, call_real, same_value
 
+LEVEL_TEXT = (
+    'Lean theorems over a statement-by-statement model of text.py: closed forms of LEFT/RIGHT/MID/REPLACE '
+    'for every text, position and count; FIND is the first occurrence >= start; the five algebraic laws of '
+    'the statement, clipping, zero counts and the error cases. The model is tied to the running code by an '
+    'exhaustive small-domain plus random differential run (direct calls and through formulas).')
+LEVEL_NOTE = (
+    'Trusted: Lean kernel (axioms propext, Classical.choice, Quot.sound), the hand-written model (validated '
+    'by correspondence, not proved equal to the Python), Python str.upper/lower for non-ASCII, argument '
+    'coercion (C08).')
+DESIGN_REF = '§4 C17'
+
 TRUSTED = [
     'Lean 4.33 kernel; axioms propext, Classical.choice, Quot.sound only',
     'hand-written model lean/XlVerif/Model/C17.lean of xlfunctions/text.py, tied to the code by this '
